@@ -212,6 +212,8 @@ def stepSer (m : Mode) (toks : List String) : String :=
 structure KvState where
   store : Store := Store.empty
   recs : List (List Nat) := []
+  /-- the store behind the `vrt` / `vld` ops (hook-level `VStorage`) -/
+  vstore : Store := Store.empty
 
 def showKV (m : Mode) (st : Store) (bytes : List Nat) (sep : String) : Option String :=
   match loadKV m bytes st with
@@ -229,11 +231,28 @@ def stepKv (m : Mode) (s : KvState) (toks : List String) : KvState × String :=
         (s', showOutcome (fun (r : Val × Val) => showVal r.1 ++ " " ++ showVal r.2) (loadKV m bytes st'))
       | none => (s, "bad-op")
     | _, _ => (s, "bad-op")
+  | ["vrt", v] =>
+    -- store through `store_db_value`, show the 16 index bytes, the out-of-line bytes, and the load
+    match parseVal v with
+    | some v =>
+      match storeValue v s.vstore with
+      | some (idx, st') =>
+        let raw := if isValue idx then "-" else
+          (match st'.get (idxIndex idx) with | .ok bs => "x" ++ toHex bs | _ => "?")
+        ({ s with vstore := st' },
+          toHex idx ++ " " ++ raw ++ " " ++ showOutcome showVal (loadValue m idx st'))
+      | none => (s, "bad-op")
+    | none => (s, "bad-op")
+  | ["vld", hex] =>
+    match parseHex hex with
+    | some idx =>
+      if idx.length == 16 then (s, showOutcome showVal (loadValue m idx s.vstore)) else (s, "bad-op")
+    | none => (s, "bad-op")
   | ["reopen"] =>
     let parts := s.recs.map fun b => showKV m s.store b "="
     if parts.all Option.isSome then
       (s, String.intercalate " " ("ok" :: parts.filterMap id))
-    else (s, "err:InvalidIndex")
+    else (s, "err:NotFound")
   | _ => (s, "bad-op")
 
 /-! ### C22 stream: type descriptors, user values -/
@@ -485,7 +504,7 @@ partial def loop (m : Mode) (hin hout : IO.FS.Stream) (st : DriverState) : IO Un
       match toks with
       | ["case", n] => (({} : DriverState), "case " ++ n)
       | "enc" :: _ | "dec" :: _ | "tovec" :: _ | "deep" :: _ => (st, stepSer m toks)
-      | "kv" :: _ | "reopen" :: _ =>
+      | "kv" :: _ | "reopen" :: _ | "vrt" :: _ | "vld" :: _ =>
         let (kv', o) := stepKv m st.kv toks
         ({ st with kv := kv' }, o)
       | "tdv" :: _ | "keys" :: _ | "fde" :: _ | "ins" :: _ | "insb" :: _ | "all" :: _ =>
